@@ -5,10 +5,12 @@
 //!   rbpf-mc replay <FILE.json>
 
 mod asmref;
+mod byteseng;
 mod common;
 mod isa;
 mod isaeng;
 mod refmodel;
+mod refverif;
 mod text;
 mod vm;
 
@@ -25,6 +27,9 @@ fn run_engine(prop: &str, s: &mut Sink) {
         "C01" => isaeng::run(s, vm::Eng::Interp),
         "C03" => isaeng::run(s, vm::Eng::Jit),
         "C04" => isaeng::run(s, vm::Eng::Cl),
+        "C05" => byteseng::run(s, byteseng::Mode::C05),
+        "C06" => byteseng::run(s, byteseng::Mode::C06),
+        "C12" => byteseng::run(s, byteseng::Mode::C12),
         "C13" => text::run_c13(s),
         "C14" => text::run_c14(s),
         "C15" => text::run_c15(s),
@@ -42,6 +47,10 @@ pub fn replay_value(rp: &Value) -> Vec<String> {
         "isa-l1" => isaeng::replay_l1(rp),
         "isa-prog" => isaeng::replay_prog(rp),
         "isa-l4" => isaeng::replay_l4(rp),
+        "verify" => byteseng::replay_verify(rp),
+        "interp-total" => byteseng::replay_interp_total(rp),
+        "compile-total" => byteseng::replay_compile_total(rp),
+        "compile-sizing" => byteseng::replay_compile_sizing(rp),
         "asm" => text::replay_asm(rp),
         "asm-total" => text::replay_asm_total(rp),
         "disasm" => text::replay_disasm(rp),
